@@ -564,8 +564,10 @@ def ind_check(c, rule, trusted_extra):
             if not st:
                 thin.append(f"{name}: no case replayed")
                 continue
-            if c.prop == "C05" and name not in no_values and st["vals"] * 2 < st["steps"]:
-                thin.append(f"{name}: only {st['vals']} values compared in {st['steps']} steps")
+            # steps whose value is legitimately exempt (a quotient of rounding residue on a flat stretch: comparison on, nothing
+            # to compare) are not "switched off"; they are reported separately in the evidence (`exv`)
+            if c.prop == "C05" and name not in no_values and (st["vals"] + st.get("exv", 0)) * 2 < st["steps"]:
+                thin.append(f"{name}: only {st['vals']} values compared (+{st.get('exv', 0)} steps exempt) in {st['steps']} steps")
             if c.prop == "C06" and name not in no_signals and st["sigs"] * 2 < st["steps"]:
                 thin.append(f"{name}: only {st['sigs']} signals compared in {st['steps']} steps")
         if thin and not r.get("error"):
